@@ -229,7 +229,7 @@ def check(ctx, replay=None):
     goals, viol, nstruct, nvals, samples = [], 0, 0, 0, []
     def violate(key, obj):
         nonlocal viol
-        if viol < 4:
+        if len(ctx.violations) < 4:
             viol += 1
             ctx.violation(key, obj, True)
     for bi in range(2 if ctx.quick() else 10):
@@ -346,7 +346,7 @@ def check(ctx, replay=None):
                 samples = [{"struct": r["s"], "fields": [f"{fn}: {rust_ty(ft)}" for fn, ft in S[r["s"]]], "take_args": r.get("take_args"), "give": r.get("give")} for r in recs[:2]]
             shutil.rmtree(out, ignore_errors=True)
     fails = run_shards(PROP, HEADER, goals, per_shard=120) if goals else []
-    if fails and viol == 0:
+    if fails and not ctx.violations:
         ctx.violation("corr:layout", {"broken": "correspondence goal " + goals[fails[0]][:500] + " : Layout/Model.v does not reproduce what the generated JS does"}, False)
     return batch_evidence(
         ctx, PROP, phase, goals, fails, nvals, nstruct,
